@@ -569,7 +569,8 @@ func init() {
 		format := mustString(args[0], "fmt.Sprintf format")
 		na, ok := m.nativeArgs(args[1].([]value))
 		if !ok {
-			m.IntrinsicsHit["fmt.Sprintf(symbolic arg -> placeholder text)"]++
+			// the text may decide control flow later (keys, paths): do not guess
+			panic(unmodelled("fmt.Sprintf with a symbolic argument (format " + format + ")"))
 		}
 		return fmt.Sprintf(format, na...)
 	})
